@@ -302,26 +302,16 @@ func (res *Response) ReadFrom(r io.Reader) (n int64, err error) {
 		return 0, nil
 	}
 
-	res.hasBody = true
-	res.eoncodeHead()
-	_, err = c.Write(*res.buffer)
-	mempool.Free(res.buffer)
-	res.buffer = nil
-	if err != nil {
-		return 0, err
-	}
+	res.WriteHeader(http.StatusOK)
+	res.checkChunked()
 
-	if !res.Parser.Engine.DisableSendfile {
-		lr, ok := r.(*io.LimitedReader)
-		if ok {
-			n, r = lr.N, lr.R
-			if n <= 0 {
-				return 0, nil
-			}
-		}
-
-		f, ok := r.(*os.File)
-		if ok {
+	// A file range of known length, as the first body bytes of a response
+	// framed by Content-Length, on a connection that can send files, is
+	// handed to the kernel. Everything else is read here and framed by Write.
+	if lr, ok := r.(*io.LimitedReader); ok && lr.N > 0 &&
+		!res.chunked && !res.Parser.Engine.DisableSendfile &&
+		res.bodyWritten == 0 && res.bodyBuffer == nil {
+		if f, ok := lr.R.(*os.File); ok {
 			rc := c
 			if hc, ok := c.(*Conn); ok {
 				rc = hc.Conn
@@ -329,23 +319,37 @@ func (res *Response) ReadFrom(r io.Reader) (n int64, err error) {
 			nc, ok := rc.(interface {
 				Sendfile(f *os.File, remain int64) (int64, error)
 			})
-			if !ok {
-				hc, ok2 := c.(*Conn)
-				if ok2 {
-					nc, ok = hc.Conn.(interface {
-						Sendfile(f *os.File, remain int64) (int64, error)
-					})
+			cl, errCL := res.contentLength()
+			if ok && errCL == nil && cl > 0 && lr.N <= int64(cl) {
+				res.hasBody = true
+				res.eoncodeHead()
+				if res.buffer != nil {
+					_, err = c.Write(*res.buffer)
+					mempool.Free(res.buffer)
+					res.buffer = nil
+					if err != nil {
+						return 0, err
+					}
 				}
-
-			}
-			if ok {
-				ns, err := nc.Sendfile(f, lr.N)
-				return ns, err
+				n, err = nc.Sendfile(f, lr.N)
+				res.bodyWritten += int(n)
+				return n, err
 			}
 		}
 	}
 
-	return io.Copy(c, r)
+	return io.Copy(responseWriterOnly{res}, r)
+}
+
+// responseWriterOnly hides ReadFrom, so that io.Copy reads the source itself
+// and passes the bytes to Write.
+type responseWriterOnly struct {
+	w *Response
+}
+
+//go:norace
+func (w responseWriterOnly) Write(data []byte) (int, error) {
+	return w.w.Write(data)
 }
 
 // Push implements the http.Pusher interface.
